@@ -237,6 +237,9 @@ class SR:
     def __mod__(self, m):
         return engine().mod(self, m)
 
+    def __round__(self, ndigits=None):
+        return engine().round(self, ndigits)
+
     def sqrt(self):
         return engine().sqrt(self)
 
@@ -594,6 +597,29 @@ class Engine:
         if self.in_run:
             self.solver.add(ax)
         return r
+
+    def round(self, x, ndigits=None):
+        """round(x, n): k / 10^n with an integer k (one per distinct argument) and |x * 10^n - k| <= 1/2.  Ties may go
+        either way (Python rounds the binary value half-to-even): an over-approximation, so a candidate that rests
+        on a tie direction is settled by the float replay."""
+        x = SR.lift(x)
+        nd = int(ndigits or 0)
+        scale = Fraction(10)**nd
+        if x.is_const():
+            return SR.const(Fraction(round(x.const_value() * scale)) / scale)
+        key = ('round', x.key(), nd)
+        n = len([1 for k in self._atom_by_key if k[0] == 'round'])
+        ki = z3.Int('roundk!%d' % n)
+        fresh = key not in self._atom_by_key
+        a = self.atom(key, lambda: z3.ToReal(ki), 'rnd%d' % n)
+        k = SR({((a, 1), ): Fraction(1)})
+        if fresh:
+            d = x * scale - k
+            ax = z3.And(d.z3() >= z3.RealVal('-1/2'), d.z3() <= z3.RealVal('1/2'))
+            self.axioms.append(ax)
+            if self.in_run:
+                self.solver.add(ax)
+        return k / scale
 
     def register_pow(self, base, e, patom):
         """patom (a positive atom of the harness) stands for base**e, e = n/2: sound and complete as long as no
